@@ -26,6 +26,9 @@ MALFORMED_NAMES = [
     "projects//topics/t", "projects/p/topic/t", "projects/p/subscriptions/", "brojects/p/topics/t",
     "projects/p/subscriptions", "/projects/p/topics/t", "projects/p//topics/t", "projects/p/Topics/t",
     "projects/é/topics", "projects/p/topicsé/t", " projects/p/topics/t",
+    # long and not ASCII: a multi-byte character across every likely cut-off of an error message
+    "x" * 127 + "é" + "y" * 40, "x" * 126 + "é" + "y" * 40, "x" * 63 + "é" * 40, "x" * 255 + "✓" + "y" * 10,
+    "projects/p/topics" + "é" * 70, "nope" + "✓" * 100,
 ]
 ODD_VALID_IDS = ["a", "a/", "/a", "a/b", "é", "x y", "-", "t" * 40, "topics", "subscriptions/x"]
 
@@ -42,7 +45,8 @@ PULL_MAX_ODD = [0, -1, 65535, 65536, 65537, 131072, 2147483647, -2147483648, 100
 ACKDL = [0, 0, 10, 11, 12, 15, 20, -5, 600, 700, 1, 5, 9]
 MOD_SECS = [0, 0, 1, 5, 9, 10, 11, 30, 599, 600, 601, 100000, 65535, 65536, 65537, 65566, 131072, 131100, 16777216,
             -1, -2147483648, 2147483647]
-BAD_ACK_IDS = ["", "x", "-1", "1.5", "18446744073709551616", "99999999999999999999999", "١", " 1", "1 ", "0x1"]
+BAD_ACK_IDS = ["", "x", "-1", "1.5", "18446744073709551616", "99999999999999999999999", "١", " 1", "1 ", "0x1",
+               "9" * 127 + "é" + "1" * 20]
 ODD_OK_ACK_IDS = ["+1", "001", "+0002", "0", "18446744073709551615"]
 PAGE_SIZES = [0, 0, 1, 2, 3, 5, 19, 20, 21, 1000, 1001, 2147483647, -1, -2147483648]
 BAD_TOKENS = ["x", "AAAA", "AAAAAAAAAAAA", "AAAAAAAAAAA", "AAAAAAAAAAA=x", "AQAAAAAAAAA", "AQAAAAAAAAB=",
@@ -475,7 +479,10 @@ def paging_walk_cases(counts, sizes, seed=0, prefix="pg"):
             # subscriptions on the first live topic, some in another project's namespace
             subs = []
             if live:
+                ops.append("CT " + hx(tname("other", "home")))
                 for i in range(min(n, 25)):
+                    if i % 3 == 0:
+                        ops.append("CS %s %s 10 ~" % (hx(sname("other", "o%03d" % i)), hx(tname("other", "home"))))
                     s = sname("p", "s%03d" % i)
                     ops.append("CS %s %s 10 ~" % (hx(s), hx(live[0])))
                     subs.append(s)
@@ -719,15 +726,15 @@ def delete_release_cases(seeds, prefix="del"):
 def abandon_cases(ks=(1, 2, 3, 4, 6), ys=(0, 1, 4), fills=(0, 16, 24), prefix="ab"):
     """A library-level request polled k times (y yields in between) and dropped, with the target actor's mailbox
     empty or saturated; then probes.  Returns (id, ops, index of the XC line, equivalent complete op)."""
-    T, Sn, S2 = tname("p", "t"), sname("p", "s"), sname("p", "new")
+    T, Sn, S2, S3 = tname("p", "t"), sname("p", "s"), sname("p", "new"), sname("p", "twin")
     out = []
     n = 0
-    for kind in ("CS", "DS", "PUB", "PULL", "ACK", "DT"):
+    for kind in ("CS", "DS", "PUB", "PUBS", "PULL", "ACK", "DT"):
         for k in ks:
             for y in ys:
                 for fill in fills:
                     ops = ["SEED %d" % (n % 40), "CT " + hx(T), "CS %s %s 10 ~" % (hx(Sn), hx(T)),
-                           "PUB %s 2 61 0 62 0" % hx(T), "PULL %s 1 1" % hx(Sn)]
+                           "CS %s %s 10 ~" % (hx(S3), hx(T)), "PUB %s 2 61 0 62 0" % hx(T), "PULL %s 1 1" % hx(Sn)]
                     if kind == "CS":
                         xc = "XC CS %d %d %d %s %s 10" % (k, y, fill, hx(S2), hx(T))
                         eq = "CS %s %s 10 ~" % (hx(S2), hx(T))
@@ -736,6 +743,10 @@ def abandon_cases(ks=(1, 2, 3, 4, 6), ys=(0, 1, 4), fills=(0, 16, 24), prefix="a
                         eq = "DS " + hx(Sn)
                     elif kind == "PUB":
                         xc = "XC PUB %d %d %d %s 7a" % (k, y, fill, hx(T))
+                        eq = "PUB %s 1 7a 0" % hx(T)
+                    elif kind == "PUBS":
+                        # the same with the mailbox of one of the topic's two subscriptions saturated
+                        xc = "XC PUBS %d %d %d %s 7a %s" % (k, y, fill, hx(T), hx(Sn if n % 2 else S3))
                         eq = "PUB %s 1 7a 0" % hx(T)
                     elif kind == "PULL":
                         xc = "XC PULL %d %d %d %s 5" % (k, y, fill, hx(Sn))
@@ -749,7 +760,7 @@ def abandon_cases(ks=(1, 2, 3, 4, 6), ys=(0, 1, 4), fills=(0, 16, 24), prefix="a
                     idx = len(ops)
                     ops.append(xc)
                     ops += ["Q", "GS " + hx(S2), "GS " + hx(Sn), "GT " + hx(T), "LTS %s 0 -" % hx(T), "LS %s 0 -" % hx("projects/p"),
-                            "STATS " + hx(Sn), "STATS " + hx(S2), "PUB %s 1 70 0" % hx(T), "STATS " + hx(Sn), "STATS " + hx(S2),
+                            "STATS " + hx(Sn), "STATS " + hx(S3), "STATS " + hx(S2), "PUB %s 1 70 0" % hx(T), "STATS " + hx(Sn), "STATS " + hx(S2),
                             "PULL %s 10 1" % hx(S2), "ADV %d" % (10200 * MS), "STATS " + hx(Sn), "PULL %s 10 1" % hx(Sn),
                             "CT " + hx(T), "CS %s %s 10 ~" % (hx(S2), hx(T)), "DS " + hx(S2), "DS " + hx(Sn), "DT " + hx(T),
                             "LT %s 0 -" % hx("projects/p"), "LS %s 0 -" % hx("projects/p")]
@@ -835,7 +846,7 @@ def burst_cases(seeds, prefix="bu"):
 
 # ---------------------------------------------------------------- push (C14)
 
-PUSH_OUTCOMES = ["200", "201", "202", "204", "301", "400", "404", "500", "503", "reset"]
+PUSH_OUTCOMES = ["200", "201", "202", "204", "301", "400", "404", "500", "503", "reset", "203", "205", "206", "226", "299"]
 
 
 def push_cases(seed, n, with_hang=False, prefix="ps"):
@@ -846,6 +857,8 @@ def push_cases(seed, n, with_hang=False, prefix="ps"):
     P0, P1, PL, PR = hx(sname("p", "push0")), hx(sname("p", "push1")), hx(sname("p", "plain")), hx(sname("p", "refused"))
     import itertools
     scripts = [list(s) for r in (1, 2, 3) for s in itertools.product(["200", "204", "500", "404", "reset"], repeat=r)]
+    # every 2xx status that is NOT an acceptance, followed by an acceptance
+    scripts += [[st, "200"] for st in ("203", "205", "206", "207", "208", "226", "250", "299")]
     rng.shuffle(scripts)
     cases = []
     for i in range(n):
